@@ -574,6 +574,41 @@ def rule_R8(ck):
             ck.violation(where, f"WAV output is recorded as format {rec[2]!r} at {rec[3]!r}", construct="wav path")
 
 
+def rule_R8b(ck):
+    """the tape name inferred from the output path (no name given): last path component without '.wav', at most 16 bytes"""
+    repo = ck.repo
+    where = "metacommands::add_emitted_bk_wav"
+    I = eager_interp(repo, extra={"devices::resolve_relative_path": lambda I_, f, a, k: a[0]})
+    for path, src, want_name, want_err in (("out/game.wav", "s.mac", b"game", False), ("out/abcdefghijklmnop.wav", "s.mac", b"abcdefghijklmnop", False), ("out/abcdefghijklmnopq.wav", "s.mac", b"abcdefghijklmnop", True),
+                                           ("x.WAV", "s.mac", b"x", False), (None, "dir/prog.mac", b"prog", False), (None, "dir/LongProgramName123.MAC", b"LongProgramName1", True), ("noext", "s.mac", b"noext", False)):
+        appended = []
+
+        def thunk(path=path, src=src, appended=appended):
+            del appended[:]
+            sh = Shapes(I)
+            comp = Rec(ClassVal("CompilerStub"))
+            comp.fields["emitted_files"] = appended
+            comp.fields["output_charset"] = "ascii"
+            insn = sh.symbol("make_wav")
+            insn.fields["name"] = sh.symbol("make_wav")
+            I.call(I.module_get("metacommands", "add_emitted_bk_wav"), [{"filename": src, "compiler": comp, "insn": insn}, path, None, "bk_wav"], {})
+            return list(appended)
+        ps = I.explore(thunk)
+        ck.instance(("tape-name-inferred", path, src), {"output path": path, "source": src, "record": repr(ps[0].value)[:120] if ps else None}, fn=where)
+        if len(ps) != 1 or ps[0].kind != "return" or len(ps[0].value) != 1 or len(ps[0].value[0]) < 5:
+            ck.violation(where, f"make_wav {path!r} in {src}: no single output record ({ps})", construct="tape name record")
+            continue
+        rec = ps[0].value[0]
+        name = bytes(rec[4]) if isinstance(rec[4], (bytes, bytearray)) else rec[4]
+        errs = [e[2] for e in ps[0].reported()]
+        if name != want_name.ljust(16, b" "):
+            ck.violation(where, f"make_wav {path!r} in {src} (no tape name given): the header name is {name!r}, expected {want_name.ljust(16, b' ')!r} (last path component without '.wav', cut to 16 bytes, space padded)",
+                         construct="tape name field", expected=repr(want_name.ljust(16, b" ")), found=repr(name))
+        if bool(errs) != want_err:
+            ck.violation(where, f"make_wav {path!r} in {src}: the inferred tape name has {len(want_name) + (1 if want_err else 0)}{'+' if want_err else ''} bytes and the diagnostics are {errs}; a name is an error exactly when it exceeds 16 bytes",
+                         construct="tape name bound")
+
+
 def rule_R10(ck):
     """emit_files writes every requested output with its own format and its own arguments, at its own path"""
     repo = ck.repo
@@ -674,6 +709,9 @@ def run(ck):
     ck.run_rule("C13.R6", "checksum is an end-around-carry sum", 1, rule_R6)
     ck.run_rule("C13.R7", "output path derivation and suffix-strip agreement", 8, rule_R7)
     ck.run_rule("C13.R8", "tape name: encode, 16-byte bound, padding", 2, rule_R8)
+    ck.run_rule("C13.R8b", "tape name inferred from the output path: component, suffix, 16-byte bound", 7, rule_R8b)
     ck.run_rule("C13.R7d", "'~name' is a device only when registered; every other directive path is relative to the source file", 10, rule_device_paths)
+    from ..rules import route
+    ck.run_rule("DIR.route", "make_* statements, compiled the way a program reaches them, register one output of the right format at the right path", 11, route.rule_route, ("outputs",))
     from ..rules import climodel
     ck.run_rule("CLI", "main_cli over all output configurations: every requested output at its path with exactly the image", 500, climodel.rule_cli, ("writes",))
